@@ -8,14 +8,23 @@ class SourceFailed(Exception):
     """Raised by failing iterables (distinguishable from anything Darr raises)."""
 
 
-def failing_iter(items, fail_at):
-    """Yields items[:fail_at] then raises SourceFailed."""
+def failing_iter(items, fail_at, exc=None):
+    """Yields items[:fail_at] then raises SourceFailed (or exc(message))."""
+    exc = exc or SourceFailed
     for i, it in enumerate(items):
         if i == fail_at:
-            raise SourceFailed(f'iterable failed before item {i}')
+            raise exc(f'iterable failed before item {i}')
         yield it
     if fail_at >= len(items):
-        raise SourceFailed('iterable failed after the last item')
+        raise exc('iterable failed after the last item')
+
+
+def source_exception(k):
+    """The iterable feeding an append may fail with any exception class - also with Darr's own
+    AppendDataError, e.g. when it appends to a second array itself and that fails."""
+    import darr.array as da
+    classes = [SourceFailed, ValueError, OSError, KeyError, getattr(da, 'AppendDataError', RuntimeError), TypeError]
+    return classes[k % len(classes)]
 
 
 class FileSizeLimit:
